@@ -42,7 +42,9 @@ func VerifRevolutRow() {
 	reg := registry.New()
 	acc := reg.Accounts().MustGet("Assets:Revolut")
 	p := parser{registry: reg, reader: csv.NewReader(strings.NewReader(zzHeader + row)), account: acc, builder: journal.New()}
-	err := p.parse()
+	var err error
+	stdout := v.CaptureStdout(func() { err = p.parse() })
+	v.Assert(stdout == "", "importer-writes-nothing-but-the-journal")
 	v.Assert(err == nil, "well-formed-row-is-imported")
 	if err != nil {
 		return
